@@ -15,7 +15,7 @@ def run(v, tier, seed, replay):
         return suvec.replay(v, replay, "asan")
     exe = suvec.build_driver("asan")
     ops = ("add", "icomm", "list", "factory") if tier == "quick" else ("add", "neg", "icomm", "elementwise", "list", "factory")
-    cfg = suvec.bfs_cfg("C16_bfs", vecs=3, dims=(2, 3), exts=(1,), maxops=3 if tier == "quick" else 4, ops=ops, nblk=7, faults=True)
+    cfg = suvec.bfs_cfg("C16_bfs", vecs=3, dims=(2, 3), exts=(1,), maxops=3, ops=ops, nblk=7, faults=True)      # depth 4 is ~7 M transitions: the exported graph does not fit in memory (tried: 65 GB)
     r = vlib.tlc("SUVec", cfg, timeout=3000)
     vlib.tlc_ok(r, "C16 exploration")
     if r.violated:
@@ -55,6 +55,6 @@ def run(v, tier, seed, replay):
     for s in [x for x in segs if any('"out":"bad_alloc"' in y for y in x)][:2]:
         v.sample({"calls": [{k: x for k, x in json.loads(y).items() if k in ("e", "t", "a", "b", "op", "w", "d", "fail", "out", "hev")} for y in s]})
     v.cov["rule"] = ("every (reachable state of <= %d calls, allocating call, k-th allocation fails) of the exploration; a case is non-trivial when the injected failure actually fired; "
-                     "distinct = call classes (call, operation, statement kind) in which it fired") % (3 if tier == "quick" else 4)
+                     "distinct = call classes (call, operation, statement kind) in which it fired") % 3
     v.assumptions.append("only the library's block allocations (operator new[]) are failed; std::string/exception allocations are not")
     return "fault_enumeration"
